@@ -1157,7 +1157,7 @@ Section Ord.
     - intros a b c _ _. exact I.
     - apply G2_same.
     - apply G2_same_sig.
-    - apply G2_ev.
+    - intros s e NE. apply G2_ev, neutral0_neutral, NE.
     - apply G2_kill.
     - apply G2_unwind.
     - apply G2_pop.
